@@ -217,6 +217,97 @@ def run_es(case):
     return out
 
 
+# ----------------------------------------------------------------------------------------------------------------
+# cell strategy (supported configuration lmin == lmax)
+# ----------------------------------------------------------------------------------------------------------------
+def run_cell(case):
+    from sparseSpACE.spatiallyAdaptiveCell import SpatiallyAdaptiveCellScheme
+    from sparseSpACE.GridOperation import Integration
+    from sparseSpACE.Grid import TrapezoidalGrid
+    out = Outcome()
+    sub = "cell"
+    dim = case["dim"]
+    a, b = case["a"], case["b"]
+    rng = np.random.default_rng(case["fseed"])
+    cs = rng.normal(size=(2, 2 ** dim))
+    g = drive.driver_function(dim, case["fseed"])
+    comps = [g] + [oracles.multilinear(c, dim) for c in cs]
+    exact = np.array([oracles.multilinear_integral(c, a, b) for c in cs])
+    m = max(1.0, max(abs(x) for x in a + b))
+    scale = np.array([float(np.sum(np.abs(c))) * m ** dim for c in cs])
+    vol = float(np.prod(np.array(b) - np.array(a)))
+    f = drive.vector_function(comps)
+    A, B = np.array(a, dtype=float), np.array(b, dtype=float)
+    grid = TrapezoidalGrid(A, B)
+    op = Integration(f, grid=grid, dim=dim, reference_solution=None, print_level=drive.Q, log_level=drive.Q)
+    sa = SpatiallyAdaptiveCellScheme(A, B, operation=op)
+    sa.log_util.set_print_level(drive.Q)
+    sa.log_util.set_log_level(drive.Q)
+    st_ = dict(steps=0, strict=0, n=None)
+
+    def on_eval(k):
+        res = np.array(op.get_result(), dtype=float)[1:]
+        err = float(np.max(np.abs(res - exact) / (vol * scale)))
+        if not (err <= TOL):
+            out.bad(sub + "/multilinear-integral-not-exact", "after evaluation %d: rel. error %.3e (lmin=lmax=%d, d=%d, %d cells)" % (
+                k, err, case["lmin"], dim, len(sa.refinement.get_objects())))
+
+    def before_refine(k):
+        st_["n"] = sum(1 for o in sa.refinement.get_objects() if o.active)
+
+    def after_refine(k):
+        st_["steps"] += 1
+        n = sum(1 for o in sa.refinement.get_objects() if o.active)
+        grown = (n - st_["n"])
+        if 0 < grown < st_["n"] * (2 ** dim - 1):
+            st_["strict"] += 1
+
+    case2 = dict(case, lmax=case["lmin"], estimator="tape" if case["estimator"] == "tape" else "cell")
+    if case2["estimator"] == "cell":
+        from sparseSpACE.ErrorCalculator import ErrorCalculatorSurplusCell
+        drive_err = ErrorCalculatorSurplusCell()
+    else:
+        drive_err = drive.make_tape_err(case["tape"], case["mode"])
+    state = dict(evals=0, refines=0)
+    orig_eval, orig_refine = sa.evaluate_operation, sa.refine
+
+    def ev():
+        r = orig_eval()
+        on_eval(state["evals"])
+        state["evals"] += 1
+        return r
+
+    def rf():
+        if state["refines"] >= case["maxsteps"] or (state["refines"] >= 1 and sa.get_total_num_points() > case["maxev"]):
+            raise drive.StopHistory()
+        before_refine(state["refines"])
+        orig_refine()
+        after_refine(state["refines"])
+        state["refines"] += 1
+    sa.evaluate_operation, sa.refine = ev, rf
+    try:
+        with drive.quiet():
+            sa.performSpatiallyAdaptiv(case["lmin"], case["lmin"], drive_err, tol=-1, max_evaluations=10 ** 9, print_output=False)
+    except drive.StopHistory:
+        pass
+    out.nontrivial = st_["steps"] >= 2 and st_["strict"] >= 1
+    out.cls("lmin=%d" % case["lmin"], "estimator=%s" % case2["estimator"], "d=%d" % dim)
+    out.info = dict(max_steps=st_["steps"], max_cells=len(sa.refinement.get_objects()))
+    return out
+
+
+def cell_strategy(tier):
+    @st.composite
+    def s(draw):
+        dim = draw(st.integers(2, 3))
+        a, b = drive.st_box(draw, dim)
+        tape, mode = drive.st_tape(draw)
+        return dict(kind="cell", dim=dim, a=a, b=b, lmin=draw(st.integers(1, 2)), estimator=draw(st.sampled_from(["tape", "tape", "library"])),
+                    tape=tape, mode=mode, maxsteps=draw(st.sampled_from([2, 3, 5, 8, 12, 16, 25])), maxev=draw(st.integers(60, 400)),
+                    fseed=draw(st.integers(0, 10 ** 6)))
+    return s()
+
+
 def dw_strategy(tier):
     return drive.st_dw_case(tier=tier)
 
@@ -257,4 +348,5 @@ SUBS = [
     Sub("dw", dw_strategy, run_dw, dict(quick=350, thorough=8000), budget_s=dict(quick=40, thorough=600)),
     Sub("dw_modified", dwm_strategy, run_dw_modified, dict(quick=160, thorough=3000), budget_s=dict(quick=25, thorough=400)),
     Sub("es", es_strategy, run_es, dict(quick=160, thorough=4000), budget_s=dict(quick=40, thorough=600)),
+    Sub("cell", cell_strategy, run_cell, dict(quick=200, thorough=4000), budget_s=dict(quick=25, thorough=400)),
 ]
